@@ -144,6 +144,16 @@ class SymCtx:
     def known(self, dev):
         return dev in self.deviations
 
+    def select(self, table, idx):
+        """table[idx] as one if-then-else term (finite function in the solver), no forking"""
+        if not isinstance(idx, SymInt):
+            return table[idx]
+        w = max(max((abs(int(v)).bit_length() for v in table), default=1) + 2, 2)
+        t = z3.BitVecVal(int(table[-1]), w)
+        for i in range(len(table) - 2, -1, -1):
+            t = z3.If(idx.t == z3.BitVecVal(i, idx.w), z3.BitVecVal(int(table[i]), w), t)
+        return SymInt(t, w, min(table), max(table))
+
     def attempt(self, fn, *a, **k):
         try:
             return ("ok", fn(*a, **k))
